@@ -181,6 +181,18 @@ def pp_elements(junction=True, include_node_elements=True, include_branch_elemen
     return pp_elms
 
 
+def _junction_reference_mask(net, element, column):
+    """
+    Rows of net[element] whose entry in `column` is a junction index. Valves that are attached to a
+    pipe (et == "pi") keep a pipe index in their "element" column, which must neither be matched
+    against nor translated by junction indices.
+    """
+    table = net[element]
+    if element == "valve" and column == "element" and "et" in table.columns:
+        return (table["et"] != "pi").values
+    return np.ones(len(table), dtype=bool)
+
+
 def reindex_junctions(net, junction_lookup):
     """
     Changes the index of net.junction and considers the new junction indices in all other
@@ -261,7 +273,13 @@ def reindex_elements(net, element, lookup):
     if element == "junction":
         for element, value in element_junction_tuples(net=net):
             if element in net.keys():
-                net[element][value] = get_indices(net[element][value], lookup)
+                is_junction = _junction_reference_mask(net, element, value)
+                if is_junction.all():
+                    net[element][value] = get_indices(net[element][value], lookup)
+                elif is_junction.any():
+                    rows = net[element].index[is_junction]
+                    net[element].loc[rows, value] = get_indices(net[element].loc[rows, value],
+                                                                lookup)
     elif element == "pipe":
         if "valve" in net:
             pipe_valves = net["valve"].loc[net["valve"]["et"] == "pi", "element"]
@@ -368,7 +386,8 @@ def fuse_junctions(net, j1, j2, drop=True):
     j2 = set(j2) - {j1} if isinstance(j2, Iterable) else [j2]
 
     for element, value in element_junction_tuples(net=net):
-        i = net[element][net[element][value].isin(j2)].index
+        is_junction = _junction_reference_mask(net, element, value)
+        i = net[element][net[element][value].isin(j2) & is_junction].index
         net[element].loc[i, value] = j1
 
     if drop:
@@ -407,8 +426,13 @@ def select_subnet(net, junctions, include_results=False, keep_everything_else=Fa
     comp_junc_rows = {tbl: [jr for el, jr in comp_tuples if el == tbl] for tbl in
                       set([v[0] for v in comp_tuples])}
     for comp_tbl, junc_rows in comp_junc_rows.items():
-        isin_all = np.all([net[comp_tbl][jr].isin(junctions) for jr in junc_rows], axis=0)
+        isin_all = np.all([net[comp_tbl][jr].isin(junctions)
+                           | ~_junction_reference_mask(net, comp_tbl, jr) for jr in junc_rows], axis=0)
         p2[comp_tbl] = net[comp_tbl][isin_all]
+    if "valve" in comp_junc_rows and "pipe" in comp_junc_rows:
+        # valves attached to a pipe follow their pipe
+        pipe_valve = (p2["valve"]["et"] == "pi") & ~p2["valve"]["element"].isin(p2["pipe"].index)
+        p2["valve"] = p2["valve"][~pipe_valve]
 
     if include_results:
         for table in net.keys():
@@ -482,8 +506,10 @@ def drop_elements_at_junctions(net, junctions, node_elements=True, branch_elemen
     """
     for element, column in element_junction_tuples(node_elements, branch_elements,
                                                    include_res_elements=False, net=net):
-        if any(net[element][column].isin(junctions)):
-            eid = net[element][net[element][column].isin(junctions)].index
+        at_junctions = net[element][column].isin(junctions) & \
+            _junction_reference_mask(net, element, column)
+        if any(at_junctions):
+            eid = net[element][at_junctions].index
             if element == 'pipe':
                 drop_pipes(net, eid)
             # elif element == 'trafo' or element == 'trafo3w':
@@ -510,6 +536,13 @@ def drop_pipes(net, pipes):
     :type pipes: Iterable
     :return: No output.
     """
+    # drop valves attached to the pipes
+    if "valve" in net.keys() and "et" in net["valve"].columns:
+        valves = net["valve"].index[(net["valve"]["et"] == "pi")
+                                    & net["valve"]["element"].isin(pipes)]
+        net["valve"].drop(valves, inplace=True)
+        if "res_valve" in net.keys():
+            net["res_valve"].drop(net["res_valve"].index.intersection(valves), inplace=True)
     # drop lines and geodata
     net["pipe"].drop(pipes, inplace=True)
     net["pipe_geodata"].drop(set(pipes) & set(net["pipe_geodata"].index), inplace=True)
